@@ -30,7 +30,12 @@ func runPure(r *rec, g *rng, tier, what string) {
 }
 
 // evalPure evaluates one pure op line on the implementation (also used by --replay).
-func evalPure(op string) string {
+func evalPure(op string) (ans string) {
+	defer func() { // a pure function that panics on this input: that is its answer
+		if r := recover(); r != nil {
+			ans = "PANIC"
+		}
+	}()
 	f := strings.Fields(op)
 	u := func(i int) uint32 {
 		v, _ := strconv.ParseUint(f[i], 16, 32)
